@@ -111,7 +111,7 @@ class MatchedOffsets(Task):
             return
         calls = ex.as_iterable(out.value)
         ok = isinstance(calls, list) and len(calls) == 2 and all(isinstance(c, dict) for c in calls)
-        ctx.oblige("post.one-task-per-distinct-file", ok, "P")
+        ctx.structure("post.one-task-per-distinct-file", ok)
         if not ok:
             return
         from pyvc.ops import compare
@@ -157,7 +157,7 @@ class BinfileOutput(Task):
             return
         calls = ex.as_iterable(out.value)
         ok = isinstance(calls, list) and len(calls) == 2 and all(isinstance(c, dict) for c in calls)
-        ctx.oblige("post.one-task-per-distinct-file", ok, "P")
+        ctx.structure("post.one-task-per-distinct-file", ok)
         if not ok:
             return
         from pyvc.ops import compare
@@ -275,7 +275,7 @@ class SameMesh(Task):
         if v is not True and not (is_z3(v) and z3.is_true(z3.simplify(v))):
             if v is False:
                 return        # refusing is always safe for combine
-            ctx.oblige("post.returns-a-boolean", isinstance(v, bool) or is_z3(v), "P")
+            ctx.structure("post.returns-a-boolean", isinstance(v, bool) or is_z3(v))
             return
         A, Bm, NB, la, lb = inp["A"], inp["B"], inp["NB"], inp["la"], inp["lb"]
         ctx.oblige("post.equal-only-with-the-same-number-of-levels", la == lb, "P")
